@@ -577,7 +577,7 @@ func Scopes(quick bool) []Scope {
 			r2 := c.Choose(len(rules), "rule of policy B")
 			selB := fw.Pick(c, []*wm.Sel{ml("app", "a"), {}, ml("app", "b")}, "podSelector of B")
 			typesA := fw.Pick(c, [][]string{{"Ingress"}, {"Egress"}, {"Ingress", "Egress"}, nil}, "policyTypes of A")
-			nsB := fw.Pick(c, []string{"ns1", "ns2"}, "namespace of B")
+			nsB := fw.Pick(c, []string{"ns1", "ns2", "ghost"}, "namespace of B (ghost: no workload and no Namespace object there)")
 			c.Stride(map[bool]int{true: 150, false: 6}[quick])
 			w := baseWorld()
 			w.NSs = append(w.NSs, wm.NS{Name: "ns2", Labels: map[string]string{"team": "b"}, HasObj: true})
